@@ -16,7 +16,7 @@ RULE = ("a case = (solver view, expression tree over <= 6 primitive conditions);
         "tolerance/window), tree (random And/Or/When expression of depth <= 4, some with shared condition objects, empty "
         "compounds, single compound arguments), witness (the minimal inputs of the known findings, every run), sweep (thorough: EVERY constructor expression with <= 5 nodes over 3 shared leaves + empty And/Or, x all 8 truth assignments, plus a strided sample of the 6- and 7-node expressions); "
         "histories of length 0..40 on a coarse dyadic grid with plateaus/ties/+-inf plus generic floats; windows None/0/1../len-1/"
-        "len/len+1/30/negative/float; tolerances 0/tiny/huge/negative/exact tie/one ulp either side; non-trivial = the history "
+        "len/len+1/30/negative/float; tolerances 0/tiny/huge/negative/nan/exact tie/one ulp either side; settings passed as plain Python numbers or (about a quarter of the cases, leaves and trees) as numpy.float64/numpy.int64 scalars and numpy-array elements, whose repr state() must eval back; non-trivial = the history "
         "or population is non-empty and, for trees, at least one compound node; distinct = distinct case JSON")
 TRUSTED = ["stub solver object carrying the view (attributes read by the conditions: energy_history, population, popEnergy, "
            "bestSolution, trialSolution, generations, _fcalls, _EARLYEXIT, gradient, _cost) and a scripted clock patched over "
